@@ -548,8 +548,12 @@ func (s *scanningState) scan(line []byte) (bool, error) {
 					s.Goroutines = make([]*Goroutine, 0, 4)
 				}
 				s.Goroutines = append(s.Goroutines, g)
+				if s.state == looking {
+					// The indentation is established by the first goroutine header;
+					// by now it was already stripped from the following ones.
+					s.prefix = append([]byte{}, match[1]...)
+				}
 				s.state = gotRoutineHeader
-				s.prefix = append([]byte{}, match[1]...)
 				return true, nil
 			}
 		}
